@@ -149,14 +149,14 @@ def _replay_schedules(items):
     out = []
     stalls = 0
     for tid, c1, c2, sched in items:
-        if stalls >= 2:
-            # a stalled schedule leaves blocked threads behind and costs seconds: two per chunk are evidence enough
+        if stalls >= 1:
+            # a stalled schedule leaves blocked threads behind and costs a minute (it is re-run with long waits before it counts): one per chunk is evidence enough
             out.append((tid, [], 0, 0))
             continue
         results, drift, trace = run_pair(mods, c1, c2, sched)
         if results.get('stalled'):
             # a loaded machine must not be taken for a blocked thread: once more with waits of 20 s
-            results, drift, trace = run_pair(mods, c1, c2, sched, patience=7)
+            results, drift, trace = run_pair(mods, c1, c2, sched, patience=5)
         if results.get('stalled'):
             stalls += 1
         sigs = []
